@@ -84,10 +84,12 @@ class MinGenSet():
             Dictionary with the solver options. Default is `{}`. See [solver options documentation](solver-options-optimizations.md).
         """
         
-        self.numbers = list(numbers) # Make a copy of the list
+        # (numpy scalars, e.g. the entries of an array, are turned into Python numbers: the solver interface cannot compare them)
+        to_python_number = lambda x: x.item() if hasattr(x, "item") else x
+        self.numbers = [to_python_number(x) for x in numbers] # Make a copy of the list
         utils.logger.debug(f"{__name__}: Initial numbers: {self.numbers}")
         self.initial_numbers = numbers
-        self.total = total
+        self.total = to_python_number(total)
         utils.logger.debug(f"{__name__}: Generating set sum = {self.total}")
         self.weight_type = weight_type
         self.max_multiplicity = max_multiplicity
@@ -96,6 +98,8 @@ class MinGenSet():
             raise ValueError("`max_multiplicity` must be at least 1.")
         self.lowerbound = lowerbound
         self.partition_constraints = partition_constraints
+        if self.partition_constraints is not None and all(isinstance(constraint, list) for constraint in self.partition_constraints):
+            self.partition_constraints = [[to_python_number(x) for x in constraint] for constraint in self.partition_constraints]
         if self.partition_constraints is not None and self.max_multiplicity > 1:
             utils.logger.error(f"{__name__}: `partition_constraints` is set, but `max_multiplicity > 1`. This is not allowed.")
             raise ValueError("`partition_constraints` is not allowed when `max_multiplicity > 1`.")
